@@ -74,8 +74,12 @@ CLAIMED = {
             "Decides that each flag is produced the same way when given and when enumerated (binding, not comparing), that read-only flags accept exactly their own value, that Prolog atoms, Rust setter atoms and getter atoms coincide and are mutually inverse, that bad values end in flag_value domain errors, that both predicates end with the flag/type error clauses, and that the occurs_check setters install objects reporting the set value head unification honours the flag, and each value of the unknown flag reaches the branch of the undefined-procedure path that implements it."),
     "C45": ("effect summary and data flow of read_term_body / write_read_term_options over typed HIR; reachability from both readers",
             "Decides the plumbing clause only: how variables/1, variable_names/1 and singletons/1 are derived from the term just read. The first-occurrence index of every variable is its position in an insertion-ordered table filled by one preorder traversal of the term; a second sighting clears the occurs-once flag; variables/1 and variable_names/1 are both built from the variable list sorted ascending by that index, variable_names/1 leaving out only the anonymous variable; singletons/1 keeps the non-anonymous variables whose flag is still set (so _-prefixed ones are included); both readers bind the options through this function. What the parser puts into the term and the traversal order of the iterator are not decided."),
+    "C49": ("path-condition rules over the clause trees of between/3, numlist/3, length/2 and succ/2 (plread)",
+            "Decides the argument-checking clause only: every arithmetic comparison or is/2 that reads an argument is reached only where the path has established that the argument is an integer (must_be, integer/1, can_be with nonvar, or the success of '$skip_max_list' for the length bound); succ/2 decrements only a number it has tested positive; every error helper call names the predicate it is in, a domain error is raised only for an argument known to be an integer, and length/2's error clauses come in the order domain error (after integer(N), !) then type error. The tuples enumerated, their order and termination are not decided."),
     "C50": ("sibling agreement of in-memory and stream read/write paths over typed HIR and the call graph",
             "Decides the shared-core clause: write_term and write_term_to_chars take their printer from the same constructor with the same operator table; stream and from-chars readers use the same parser entry, operator source, heap writer and option writers on success and on end of input; the names write_term_to_chars/3 fabricates for unnamed variables are distinct (one radix for letter and suffix, counter advanced past the name taken); read_term/3 unifies its term argument only after the option lists were made. Equality of results beyond sharing is not decided."),
+    "C52": ("match-arm rules over the typed HIR of Machine::random_integer / Machine::set_seed; path-condition rules over random.pl (plread)",
+            "Decides range construction, representation coverage and the error clause: '$random_integer' has arms for the four combinations of small and arbitrary-precision bounds, each fails when lower >= upper and draws from the half-open range built from its own lower and upper bound in that order, and unifies the value in both representations; '$set_seed' narrows no seed through an unwrap (every integer is a seed) and reseeds the generator from the integer matched; random.pl reaches the primitives only after integer/1 succeeded for each bound and Lower < Upper, and its errors name the predicate and the argument whose test failed; random/1 divides an integer below 2^k by the same 2^k, k <= 53. The values drawn, their distribution and the determinism of the rand crate are not decided."),
     "C55": ("printer/lexer character-class agreement from macro-expansion origins; special-case tables",
             "Decides that the printer's unquoted-atom decision uses the lexer's classes for first character and continuation, that the only special graphic starts are '/*' and a lone '.', that [] and {} are the only bracket atoms, and that the solo characters needing quotes are the oracle list. Spacing and operator printing are not decided."),
 }
@@ -98,9 +102,7 @@ NA = {
     "C46": "BDD semantics of clp(B) in Prolog",
     "C47": "lazy vs. eager parsing equality over buffer boundaries: run-time values",
     "C48": "agreement with the operating system's file system",
-    "C49": "enumeration sequences of Prolog-defined integer relations",
     "C51": "CSV Prolog DCG round-trip",
-    "C52": "value ranges and reproducibility of random numbers",
     "C53": "graph-theoretic results of Prolog code",
     "C54": "solution-set equivalence of reified conditionals in Prolog",
 }
